@@ -16,6 +16,7 @@ theorems in `Theorems/C01Periodic.lean` (three defects on that path were repaire
 be0c955, c353f41).
 -/
 import KyroModel.Lemmas.PersistHistory
+import KyroModel.Lemmas.PowerLoss
 import KyroModel.Theorems.C01Periodic
 
 namespace KyroModel.C01
@@ -57,6 +58,59 @@ theorem C01_kill_point (cfg : PCfg) (ops : List POp) (hv : ∀ op ∈ ops, op.va
     exact ⟨r, mx, h1, Or.inl h2⟩
   · obtain ⟨r, mx, h1, h2⟩ := recover_of_Rec _ _ hk
     exact ⟨r, mx, h1, Or.inr h2⟩
+
+/-- **Power loss (fsync-every-write).**  A power failure may additionally undo directory changes
+    that were not yet synced — the creation of a file, the removal of a file.  The protocol only
+    ever leaves such changes pending for files the MANIFEST does not (yet / any longer) reference
+    (a new segment or snapshot is created before the MANIFEST that names it is published with a
+    directory sync; a compacted segment or retired snapshot is removed after the MANIFEST that
+    drops it).  So a power-loss directory `d'` is a kill-point directory up to unreferenced files
+    (`SameReferenced`), and recovers exactly as the kill point does.  That real power-loss
+    directories have this shape is what `./check C01` validates: for every directory the FS-shim's
+    power-loss model can produce, the referenced view (MANIFEST + listed segments + pointed
+    snapshot) must be the view of some action prefix of the model. -/
+theorem C01_power_loss_point (cfg : PCfg) (ops : List POp) (hv : ∀ op ∈ ops, op.valid) (op : POp)
+    (hop : op.valid) (hnb : op.isBatch = false) (k : Nat) (d' : Disk)
+    (hd : SameReferenced ((pRun cfg ops).2.applyAll ((pStep (pRun cfg ops).1 (pRun cfg ops).2 op).2.1.take k)) d') :
+    ∃ r mx, recover d' = .ok (r, mx) ∧
+      (MapEq r (pRun cfg ops).1.store.docs ∨
+       MapEq r (pStep (pRun cfg ops).1 (pRun cfg ops).2 op).1.store.docs) := by
+  have h := einv_pRun cfg ops hv
+  generalize (pRun cfg ops).1 = e at *
+  generalize (pRun cfg ops).2 = d at *
+  have key : AllPrefixes (fun d' => Rec d' e.store.docs ∨ Rec d' (pStep e d op).1.store.docs) d
+      (pStep e d op).2.1 := by
+    cases op with
+    | insert id v m acc fl fd => exact (pInsert_spec e d id v m acc fl fd h hop).2.1
+    | delete id fl => exact (pDelete_spec e d id fl h).2.1
+    | batchDelete ids fl => simp [POp.isBatch] at hnb
+    | update id md fl => exact (pUpdate_spec e d id md fl h).2.1
+    | snapshot => exact allPrefixes_mono (fun _ hd => Or.inl hd) _ _ (pSnapshot_spec e d h).2.1
+    | restart =>
+      obtain ⟨e', as, hr, _, _, hp⟩ := pRestart_spec e d h
+      simp only [pStep, hr]
+      exact allPrefixes_mono (fun _ hd => Or.inl hd) _ _ hp
+    | ioFailed n =>
+      simp only [pStep, AllPrefixes]
+      exact Or.inl ⟨_, h.dinv⟩
+  rcases allPrefixes_take d _ key k with hk | hk
+  · obtain ⟨r, mx, h1, h2⟩ := recover_of_Rec _ _ (hk.of_sameReferenced hd)
+    exact ⟨r, mx, h1, Or.inl h2⟩
+  · obtain ⟨r, mx, h1, h2⟩ := recover_of_Rec _ _ (hk.of_sameReferenced hd)
+    exact ⟨r, mx, h1, Or.inr h2⟩
+
+/-- non-vacuity of `SameReferenced`: an orphan segment the MANIFEST does not list changes nothing -/
+example : SameReferenced
+    { manifest := some ⟨none, none, [0]⟩, snaps := [], wals := [(0, {entries := []})] }
+    { manifest := some ⟨none, none, [0]⟩, snaps := [], wals := [(7, {entries := []}), (0, {entries := []})] } := by
+  refine ⟨rfl, ?_⟩
+  intro m hm
+  cases hm
+  refine ⟨?_, fun n hn => nomatch hn⟩
+  intro n hn
+  simp only [List.mem_singleton] at hn
+  subst hn
+  rfl
 
 /-- the full statement for batch deletes, kept visible: every kill point recovers to the state
     before or after the whole batch -/
